@@ -11,7 +11,10 @@ use std::fmt::Display;
 use std::str::FromStr;
 
 use std::sync::Arc;
+#[cfg(not(pricelevel_verif))]
 use std::sync::atomic::{AtomicU64, AtomicUsize, Ordering};
+#[cfg(pricelevel_verif)]
+use {crate::verif_sync::{AtomicU64, AtomicUsize}, std::sync::atomic::Ordering};
 
 /// A lock-free implementation of a price level in a limit order book
 #[derive(Debug)]
